@@ -8,7 +8,7 @@ import LMV.Driver.Util
 namespace LMV.Driver.C07
 open LMV LMV.Maximum LMV.Driver
 
-def ops : List String := ["c07", "c07isa"]
+def ops : List String := ["c07", "c07isa", "c07e2e"]
 
 /-- IEEE comparisons of `f32` -/
 def cmpF32 : Cmp Float32 where
@@ -160,6 +160,7 @@ def runScores {α : Type} (o : Cmp α) (canon : α → Nat) (op : String) (l : L
 
 def handle (toks : List String) : String :=
   match toks with
+  | "c07e2e" :: _ => "oracle-only"   -- end-to-end stream decided by the oracle; its Lean side is LMV.Props.Bridge
   | "c07" :: ty :: backend :: c :: op :: rows :: mi :: t :: impl :: cells =>
     let C := parseNat! c
     let rows := parseNat! rows
